@@ -349,7 +349,7 @@ func newListBucket(t c03Target) (*drv.Server, string) {
 func runC03(c *Ctx) {
 	r := c.R
 	maxLen := r.Pick(3, 4)
-	r.SetRule(fmt.Sprintf("exhaustive: keys over {a,b,/} up to length %d not starting/ending with '/', bucket contents = every subset of size <= %d (quick: 3, thorough: 2 plus random larger ones) reached by put/delete transitions, every prefix up to length %d not starting with the delimiter, delimiters absent and '/' on every backend plus 'b','-','.' on mem/bolt, V1, V2 and Go API; random: rich keys (escaped characters, multi-byte, characters sorting before '/', ';') with every byte prefix of every live key, including prefixes that end inside a multi-byte character, also with the query's sub-delimiter characters sent unescaped; distinct = (backend, live key set, prefix, delimiter, API form)", maxLen, r.Pick(3, 2), maxLen))
+	r.SetRule(fmt.Sprintf("exhaustive: keys over {a,b,/} up to length %d not starting/ending with '/', bucket contents = every subset of size <= %d (quick: 3, thorough: 2 plus random larger ones) reached by put/delete transitions, every prefix up to length %d not starting with the delimiter, delimiters absent and '/' on every backend plus 'b','-','.' on mem/bolt, V1, V2 and Go API; random: rich keys (escaped characters, multi-byte, characters sorting before '/', ';') with every byte prefix of every live key, including prefixes that end inside a multi-byte character, also with the query's sub-delimiter characters sent unescaped; after storage faults (ten kinds of request on the file backends, each served while the n-th file-system call of a class - rename, remove, mkdir, create, write, close, open, stat on data, metadata or temporary files - fails with ENOSPC or EIO): listings of 13 prefixes with and without delimiter are exactly the keys GET answers 200 for, with their Size and ETag; distinct = (backend, live key set, prefix, delimiter, API form)", maxLen, r.Pick(3, 2), maxLen))
 	r.Exhaustive(true)
 	targets := []c03Target{{drv.Mem, false}, {drv.Mem, true}, {drv.Bolt, false}, {drv.FsMM, false}, {drv.FsDir, false}, {drv.SingleMM, false}, {drv.SingleDir, false}, {drv.SingleDirMemMeta, false}}
 	var tn []string
